@@ -39,6 +39,7 @@ type OblResult struct {
 	raw      string
 	file     string
 	failPath int
+	failTrace []string
 	reachPCs [][]*Term
 	modelVals []string
 	testSrc, testOut, pkgDir string
@@ -211,6 +212,11 @@ func runCheck(o *Options) int {
 		}
 		if fn == nil {
 			fr.Error = "STALE: function not found in the current tree"
+			continue
+		}
+		if c.Inline && len(c.Requires) == 0 && len(c.Ensures) == 0 {
+			// no contract of its own: its body is executed (and its obligations generated) inside every caller under contract
+			fr.Vacuity = "n/a (inlined into each caller)"
 			continue
 		}
 		wg.Add(1)
@@ -540,6 +546,9 @@ func (cr *checkRun) discharge(j *OblResult) {
 			}
 			j.modelVals = r.Values
 			j.failPath = i
+			if len(ob.Paths) <= 64 && i < len(ob.Paths) {
+				j.failTrace = ob.Paths[i].Trace
+			}
 			// prefer a small counterexample (short slices) for replay
 			if small := qs[i].small; small != "" {
 				f := writeQuery(o.WorkDir, fmt.Sprintf("%s-p%d-small", j.Name, i), small)
@@ -820,7 +829,7 @@ func (cr *checkRun) writeReplay(j *OblResult) string {
 	cr.tryReplay(j)
 	doc := ReplayDoc{Property: o.Property, Obligation: j.Name, Kind: j.Kind, Text: j.Text, Pos: j.Pos, Solver: j.Solver, Answer: j.Answer,
 		Reason: j.Reason, Model: j.Model, Replay: j.Replay, Replayed: j.replayed(), PkgDir: j.pkgDir, TestSource: j.testSrc, TestOutput: j.testOut,
-		SolverOut: truncate(j.raw, 4000), Repo: o.Repo}
+		SolverOut: truncate(j.raw, 4000), Repo: o.Repo, Path: j.failTrace}
 	data, _ := json.MarshalIndent(doc, "", " ")
 	os.WriteFile(p, data, 0o644)
 	return p
